@@ -45,7 +45,11 @@ func (b *bucket) delete(v interface{}, deadline time.Time) bool {
 	idx := sort.Search(len(b.data), func(i int) bool {
 		return !b.data[i].deadline.Before(deadline)
 	})
-	if idx >= len(b.data) {
+	// several entries may share a deadline: remove the one registered for v, never a neighbour
+	for idx < len(b.data) && b.data[idx].deadline.Equal(deadline) && b.data[idx].value != v {
+		idx++
+	}
+	if idx >= len(b.data) || !b.data[idx].deadline.Equal(deadline) {
 		return false
 	}
 
